@@ -61,6 +61,8 @@ CRAFTED = [
     "a = h(1, 2)\nb = h(1, 3)\nif a:\n    c = h(h(1, 2), 2)\n    d = h(1, 2)\nelse:\n    c = 0\n    d = h(1, 2)\n",
     "x = 1\ny = 2\nx = 1\nz = 2\nx = 1\ny = 2\n",
     "v = [k * k for k in w]\nu = [k * j for k in w]\nt = {k * k: k for k in w}\n",
+    # constants: equal values of different types are different code
+    "p = n // 2\nq = n // 2.0\nr = n // 2\ns = n * True\nt = n * 1\nu = n * 1.0\nv = n + 'a'\nw = n + b'a'\n",
     # nodes with optional fields: the same number of present children in DIFFERENT slots must not match
     "p = items[n:]\nq = items[:n]\nr = items[::n]\ns = items[n:m]\nt = items[n::m]\nu = items[:n:m]\n",
     "def f(e, c):\n    raise e\ndef g(e, c):\n    raise e from c\ndef h(e, c):\n    try:\n        e = c\n        c = e\n    finally:\n        e = c\n        c = e\n    e = c\n    c = e\n",
